@@ -6,6 +6,10 @@ FIXED_EXTRA = [
  ('C18', 'accepts posteriors without individual dimension', 'compute_pointwise_loglikelihood raises AttributeError on the (chain, draw) dataset SamplingController returns for an individual LogPosterior'),
 ]
 OPEN = [
+ {'property': 'C06', 'key': 'C06|CMG sampler adds two independent variates',
+  'what': 'ConstantAndMultiplicativeGaussianErrorModel.sample adds two independent normal variates (variance '
+          'sigma_base^2 + (m sigma_rel)^2) while its log-likelihood scores N(m, (sigma_base + sigma_rel m)^2); not '
+          'repaired because a baseline test pins the seeded sample values (Properties/C06.v: C06_cmg_code_refuted)'},
  {'property': 'C11', 'key': 'C11|copy|sensitivities are switched off',
   'what': 'copy() of a mechanistic model with sensitivities enabled returns a model with sensitivities disabled '
           '(documented in the docstrings of SBMLModel.copy / PKPDModel.copy / ReducedMechanisticModel.copy), so the '
